@@ -2,6 +2,7 @@ package nbt
 
 import (
 	"bytes"
+	"errors"
 	"math"
 	"strconv"
 	"strings"
@@ -59,6 +60,9 @@ func writeValue(e *Encoder, d *decodeState, ifWriteTag bool, tagName string) err
 func writeLiteralPayload(e *Encoder, v any) (err error) {
 	switch v := v.(type) {
 	case string:
+		if len(v) > math.MaxInt16 {
+			return errors.New("nbt: string of " + strconv.Itoa(len(v)) + " bytes does not fit the 16-bit length prefix")
+		}
 		err = writeInt16(e.w, int16(len(v)))
 		if err != nil {
 			return
